@@ -86,7 +86,8 @@ def gen_and_run(args):
 def run(chk, replay=None):
     rng = random.Random(chk.seed)
     # ---- MC ---------------------------------------------------------------
-    mcs = [(2, 1, 3, 2, 1, 6), (3, 1, 4, 2, 1, 5), (2, 2, 5, 2, 1, 5)] + ([(3, 1, 5, 2, 2, 7), (3, 2, 6, 2, 1, 6), (4, 2, 7, 3, 2, 7), (4, 1, 5, 2, 1, 8)] if chk.thorough else [])
+    mcs = [(2, 1, 3, 2, 1, 6), (3, 1, 4, 2, 1, 5), (2, 2, 5, 2, 1, 5)] + ([(3, 1, 5, 2, 2, 7), (3, 2, 6, 2, 1, 6), (3, 2, 6, 3, 2, 7), (3, 2, 5, 3, 2, 8), (4, 1, 5, 2, 1, 4), (4, 1, 3, 2, 1, 5)] if chk.thorough else [])
+    # (sizes: 0.5 - 4.4 M states, 20 - 140 s each; four connections with two listeners or more than 4 ticks exceed 40 M states)
     with cf.ThreadPoolExecutor(3) as ex:
         futs = {}
         for (mc, nl, lim, to, cl, ticks) in mcs:
